@@ -814,35 +814,13 @@ func c30GradientStopKF(col string) bool {
 }
 
 func (d *c30Doc) computeKF() {
+	// The six injection / well-formedness findings of the first round (gradient stops, class names, sql
+	// constraints, clip-path ids, non-XML characters in code and legend text, root fill-pattern none) were
+	// repaired in /repo commit cdd480e12 (coq/C30/fixed.json): no signature for them any more, a
+	// regression is a VIOLATION.
 	d.KF = map[string]bool{}
-	for _, f := range d.Fields {
-		switch f.Kind {
-		case "colour":
-			if c30GradientStopKF(f.Val) {
-				d.KF["C30-gradient-stop-unescaped"] = true
-			}
-		case "classname", "classname-key":
-			if c30AttrBreaks(f.Val) {
-				d.KF["C30-class-attribute-unescaped"] = true
-			}
-		case "constraint":
-			if c30TextBreaks(f.Val) {
-				d.KF["C30-sql-constraint-unescaped"] = true
-			}
-		case "code", "legendlabel":
-			if c30HasNonXMLChar(f.Val) {
-				d.KF["C30-nonxml-char-in-code-or-legend"] = true
-			}
-		}
-	}
-	if d.RootPatternNone {
-		d.KF["C30-root-fill-pattern-none"] = true
-	}
 	if d.CurrentColor {
 		d.KF["C30-currentcolor-render-error"] = true
-	}
-	if d.ClipPathRawID {
-		d.KF["C30-clip-path-raw-id"] = true
 	}
 	if d.ImageNoIcon {
 		d.KF["C30-image-without-icon-panic"] = true
